@@ -5,7 +5,7 @@ from __future__ import annotations
 import itertools
 
 from .. import gen
-from ..core import case_nprng
+from ..core import case_nprng, interleave
 from ..drivers import index as drv
 from ..oracles import index as oidx
 
@@ -58,12 +58,11 @@ def run(rec, hub, tier, seed, shard, nshards, budget):
     writes = list(itertools.product(drv.KINDS_WRITE, repeat=n))
     space = f"all {len(reads)} read and {len(writes)} write selector-kind assignments on {n}-dimensional arrays x {len(patterns)} length patterns"
     rec.exhaustive_spaces[space] = True
-    work = []
+    phases = []
     for pi in range(len(patterns)):
-        work += [("read", pi, ai) for ai in range(len(reads))]
-        work += [("write", pi, ai) for ai in range(len(writes))]
-        work += [("misc", pi, ai) for ai in range(12)]
-        work += [("history", pi, ai) for ai in range(20 if tier == "quick" else 1500)]
+        phases += [[("read", pi, ai) for ai in range(len(reads))], [("write", pi, ai) for ai in range(len(writes))], [("misc", pi, ai) for ai in range(12)],
+                   [("history", pi, ai) for ai in range(20 if tier == "quick" else 1500)]]
+    work = interleave(*phases)
     for w, (what, pi, ai) in enumerate(work):
         if w % nshards != shard:
             continue
